@@ -117,4 +117,20 @@ example : (specRules exPx exLists).map (fun r => (kindOf r, r.text, r.listID)) =
     [(.network, lit "||b.org^", 1), (.host, lit "0.0.0.0 b.org", 1), (.network, lit "@@||b.org^$important", 7),
      (.cosmetic, lit "##x", 7)] := by decide +kernel
 
+private def exQ (h : Bytes) : Request :=
+  { url := h, urlLower := h, hostname := h, isHostnameRequest := true, reqType := Facts.TypeDocument }
+
+/-- Both sides of `c02_storage` computed on the instance: for `b.org` the important exception of list 7 wins
+   
+    over the blocking rule and the hosts line of list 1. -/
+example :
+    let res := (DnsEngine.build djb2 Facts.shortcutLength (storageRulesI exPx exLists)).matchRequest djb2
+      Facts.shortcutLength (retrieveAt ⟨4096, fun _ => 1⟩ exPx ⟨exLists, []⟩) exPx.ext getDNSBasicRule (exQ (lit "b.org"))
+    let ref := specDns exPx.ext getDNSBasicRule (specRules exPx exLists) (exQ (lit "b.org"))
+    res.networkRules.map (·.text) = [lit "||b.org^", lit "@@||b.org^$important"] ∧
+    res.networkRule.map (·.text) = some (lit "@@||b.org^$important") ∧ res.v4 = [] ∧ res.matched = true ∧
+    ref.networkRules.map (·.text) = [lit "||b.org^", lit "@@||b.org^$important"] ∧
+    ref.networkRule.map (·.text) = some (lit "@@||b.org^$important") ∧ ref.v4 = [] ∧ ref.matched = true := by
+  decide +kernel
+
 end UF.C02
